@@ -454,6 +454,16 @@ def pair(ctx: Any) -> List[Ob]:
         kept = {('PUSH' not in t) for t in oc4}
         want = abs(diff) <= 10000
         obs.append(ob(R, rf, f'new refresh time {diff:+.0f} ms from the scheduled one (delay 10 s)', f'the existing schedule is {"kept" if want else "replaced"} (a much earlier refresh time must not be ignored)', kept == {want} and not und4, f'kept on {kept}; undecided {und4}'))
+    # the scheduler is told of every pointer the browser reports: a new or refreshed pointer of ANY name that falls under a
+    # browsed type (a subtype pointer of a browsed parent type included) is handed to the scheduler on every path, a withdrawn
+    # one cancels its entry -- the pointer rows of the browser's classification table (shared with C04.CLASSIFY)
+    from .c04 import classify as _c04_classify
+
+    for o in _c04_classify.fn(ctx):
+        if str(o.construct).startswith('pointer record'):
+            o.rule = R
+            o.statement = 'the scheduler hears of it: ' + o.statement
+            obs.append(o)
     # who may push: a routine of the scheduler that is called from outside it (by the browser, for a record it was told about)
     # and reaches a push consults the schedule map for the alias first, on every path -- else the same alias reported twice
     # (twice in one datagram, or by a type and its subtype) gets two live heap entries for one map entry, and the second pop
